@@ -129,6 +129,14 @@ CHECKS = {
               'through the real reader; every result-schema field extracted from some stored or generated report.'),
         design_ref='DESIGN.md section 4 C19',
         note='Seven deliberately redefined parameters excluded from the bound/default clause as the property says (listed in evidence).'),
+    'C12': dict(
+        engine='xplore',
+        technique='exhaustive enumeration of layout orbits of one parameter set on the real pipeline (all n! orders for 6-line inputs; complete 1-move, rotation, transposition and decoration orbits for full-size inputs)',
+        category='exploration',
+        text=('Every member of each orbit is executed in its own pristine process and must give bit-identical computed results and an identical report; '
+              'duplicates with a different value placed before the governing line exercise last-occurrence-wins.'),
+        design_ref='DESIGN.md section 4 C12',
+        note='Structural options read by Model.__init__ are excluded from the different-value duplicate test.'),
 }
 
 
